@@ -28,6 +28,8 @@ pub struct RunReport {
     pub conns: u64,
     pub panics: Vec<String>,
     pub harness_error: Option<String>,
+    #[serde(default)]
+    pub trace_tail: Vec<String>,
 }
 
 pub fn keypair(seed: u64, i: usize) -> (PublicKey, SecretKey) {
@@ -330,6 +332,7 @@ impl Cluster {
             conns: conns as u64,
             panics: Vec::new(),
             harness_error: None,
+            trace_tail: o.recent.iter().cloned().collect(),
         }
     }
 }
